@@ -363,9 +363,19 @@ func genC14(r *rand.Rand, tier string, env *Env) []Case {
 			}
 			if s > 0 && chance(r, 0.3) {
 				// the same version again with another year, or another version in the same year
-				if chance(r, 0.5) {
+				switch r.Intn(3) {
+				case 0:
 					v = string(args[len(args)-2])
-				} else {
+				case 1:
+					y = string(args[len(args)-1])
+				default:
+					// the same version in the other letter case, same year: still another version
+					pv := string(args[len(args)-2])
+					if up := strings.ToUpper(pv); up != pv {
+						v = up
+					} else {
+						v = strings.ToLower(pv)
+					}
 					y = string(args[len(args)-1])
 				}
 			}
